@@ -35,11 +35,13 @@ ValueInc(z) == LET row == [cl \in Classes |-> R(BOOLEAN)] IN [nil |-> FALSE, t |
 
 Opts(z, store) ==
   [M |-> R(WMasks), R |-> R(RMasks), mm |-> R({NilMask, NilMask, Mask(<<<<"s">>>>), Mask(<<<<"f","d">>, <<"i">>>>)}),
+   W |-> NilMask,   \* (the resource's; filled in by Prog)
+   mw |-> R({NilMask, NilMask, NilMask, Mask(<<<<"s">>>>), Mask(<<<<"f","d">>, <<"i">>>>)}), aw |-> Flip(z, 8),
    ev |-> IF Flip(z, 25) THEN Some(IF Flip(z, 50) /\ store # <<>> THEN R({store[k].body : k \in 1..Len(store)}) ELSE Body(z)) ELSE NoMsg,
    chk |-> R({0, 0, 0, 1}), xa |-> Flip(z, 15), cia |-> Flip(z, 50), am |-> Flip(z, 40),
    gen |-> Flip(z, 60), first |-> R({"g", "g", "a", "b", "A"}),
    ib |-> R({0, 0, 1}), ia |-> R({0, 0, 1}), wt |-> R({-1, -1, 7, 9})]
-PlainOpts == [M |-> NilMask, R |-> NilMask, mm |-> NilMask, ev |-> NoMsg, chk |-> 0, xa |-> FALSE, cia |-> FALSE, am |-> FALSE,
+PlainOpts == [M |-> NilMask, R |-> NilMask, mm |-> NilMask, W |-> NilMask, mw |-> NilMask, aw |-> FALSE, ev |-> NoMsg, chk |-> 0, xa |-> FALSE, cia |-> FALSE, am |-> FALSE,
               gen |-> FALSE, first |-> "g", ib |-> 0, ia |-> 0, wt |-> -1]
 
 RawIds(icpt) == {"A", "a", "b", "g", "g2"}
@@ -80,11 +82,17 @@ Prog(k) ==
       store == IF isVal THEN <<>> ELSE RandStore(k, icpt)
       val == IF Flip(k, 80) THEN [has |-> TRUE, v |-> Body(k), ct |-> R(0..2)] ELSE [has |-> FALSE, v |-> Empty, ct |-> 0]
       nc == R(1..MaxCalls)
+      \* writable fields of the resource (mostly: everything)
+      W == IF Focus = "c01" /\ Flip(k, 35)
+           THEN R({Mask(<<<<"i">>>>), Mask(<<<<"f">>>>), Mask(<<<<"s">>, <<"r">>>>), Mask(<<<<"i">>, <<"f","c">>>>), Mask(<<>>)})
+           ELSE NilMask
       ns == IF Focus = "c01" THEN R(0..1) ELSE R(1..3)
   IN [n |-> k, res |-> IF isVal THEN "val" ELSE "coll", icpt |-> icpt, equiv |-> Flip(k, 30), now |-> R(3..5),
       init |-> store, vinit |-> val,
       subs |-> [j \in 1..ns |-> Sub(k)],
-      calls |-> [j \in 1..nc |-> IF isVal THEN ValCall(k, val) ELSE CollCall(k, icpt, store)]]
+      W |-> W,
+      calls |-> [j \in 1..nc |-> LET cl == IF isVal THEN ValCall(k, val) ELSE CollCall(k, icpt, store)
+                                 IN [cl EXCEPT !.o.W = W]]]
 
 GenInit == c \in { Prog(k) : k \in 1..NCases }
 GenNext == UNCHANGED c
